@@ -166,6 +166,16 @@ def panic_audit(ctx, p):
     ctx.ob(p + 'roots', 'anchor', '-', 'all roots of the pre-checksum closure exist', not missing, str(missing))
     cl = F.transitive_callees([r for r in PRECHECKSUM_ROOTS if r in F.bodies])
     ctx.info['C13.prechecksum_closure'] = sorted(cl)
+    # nothing that runs before the checksum of a record is known changes the database: the validation pass only reads. (Today
+    # HashColumn::validate_plan answers an unknown index / ref-count table id by STARTING a reindex - creating the table in memory
+    # and switching the column to it - for an id that may be a flipped bit of a record that is then rejected.)
+    MUT = [c for c in sorted(cl) if re.search(r'::(trigger_reindex|trigger_ref_count_reindex|create_new|drop_index|drop_ref_count|drop_file)$', c)]
+    # validate_plan is reachable from the roots only in validation mode; enact_plan legitimately creates/drops tables after the checksum
+    pre = set(F.transitive_callees([r for r in ('column::Column::validate_plan', 'column::HashColumn::validate_plan', 'btree::BTreeTable::validate_plan') if r in F.bodies]))
+    bad = [c for c in MUT if c in pre]
+    ctx.ob(p + '4e validation-pass-has-no-side-effects', 'K4-confinement', 'column::HashColumn::validate_plan',
+           'no function reachable from the validation pass (validate_plan) creates, switches or drops a table: the record has not passed its checksum yet',
+           not bad, 'reachable before the checksum is known: %s' % bad)
     counts = {}
     nsites = nauto = nover = 0
     for c in sorted(cl):
@@ -217,6 +227,38 @@ def panic_audit(ctx, p):
     if lo:
         for s in [bi for bi, t in lo.calls() if re.search(r'str as std::ops::Index<std::ops::RangeFrom', t.get('fa') or '')]:
             lib.cond_guarded(ctx, p + '4b log-name-prefix-checked', lo, s, 'name[3..] is evaluated only after name.starts_with("log")', calls=['re:str>?::starts_with'])
+    # the first record id found in a log file is unverified input too: the arithmetic that turns it into the sequence baseline at
+    # open must not be able to trip an overflow check (a zeroed or bit-flipped first id would panic Db::open in checked builds)
+    ob_ = ctx.body('db::DbInner::open')
+    if ob_:
+        bad = []
+        for bi in ob_.normal_blocks():
+            t = ob_.term(bi)
+            if t['k'] == 'assert' and 'verflow' in str(t.get('msg', '')) and isinstance(t.get('a'), dict) and op_place(t['a']) is not None:
+                sl = backward_slice(ob_, [[op_place(t['a'])[0]]])
+                if any(re.search(r'Log::replay_record_id$|read_first_record_id$', c) for c in sl.calls):
+                    bad.append(ob_.loc(bi))
+        ctx.ob(p + '4d first-record-id-arithmetic-cannot-overflow', 'K7-panic-audit', ob_.path,
+               'the sequence baseline is derived from the first record id of the log with saturating / checked arithmetic (the id is read from the file before any checksum is verified)',
+               not bad, 'overflow-checked arithmetic on the unverified id at %s' % bad)
+    if ob_:
+        # "... leaves a state not older than what the tables already held": how far the tables have got must come from persistent state.
+        # Taking it from the first log file PRESENT means that damage to (or loss of) an older, already enacted log that is still on
+        # disk (sync_data = false keeps 16 of them) makes replay start over from that point and re-apply old records over newer data
+        st = [bi for bi in ob_.normal_blocks() for st_ in ob_.blocks[bi]['s'] if st_['k'] == 'assign' and st_['r']['k'] == 'agg' and str(st_['r']['ak']).endswith('db::DbInner')]
+        src = set()
+        adt = F.adts.get('db::DbInner')
+        if st and adt:
+            names = [f['name'] for f in adt['variants'][0]['fields']]
+            bi = st[0]
+            agg = [st_ for st_ in ob_.blocks[bi]['s'] if st_['k'] == 'assign' and st_['r']['k'] == 'agg' and str(st_['r']['ak']).endswith('db::DbInner')][0]
+            o = agg['r']['a'][names.index('last_enacted')]
+            if op_place(o) is not None:
+                src = backward_slice(ob_, [op_place(o)]).calls
+        from_log_only = any(c.endswith('Log::replay_record_id') for c in src) and not any(re.search(r'(Metadata|read_header|load_|last_enacted_from)', c) for c in src)
+        ctx.ob(p + '4f replay-baseline-is-persistent', 'K4-provenance', ob_.path,
+               'the record id replay starts after is taken from persistent state describing the tables, not from the first log file that happens to be present',
+               bool(src) and not from_log_only, 'last_enacted is initialised from Log::replay_record_id() alone')
     nx = ctx.body("log::LogReader::<'a>::next")
     if nx:
         bad = []
